@@ -26,6 +26,9 @@ ProbesCase == { <<>>, <<"/", "a">>, <<"/", "A">>, <<"/", "a", "/", "b">>, <<"/",
 PSib == { <<"/", "a", "/", "LOW", "/", "a">>, <<"/", "a", "/", "LOW", "/", "b">>, <<"/", "a", "/", "b", "/", "a">>, <<"/", "a", "/", "b", "/", "AS">>, <<"/", "a", "/", "b">> }
 ProbesSib == { <<>>, <<"/", "a", "/", "b", "/", "a">>, <<"/", "a", "/", "b", "/", "b">>, <<"/", "a", "/", "a", "/", "a">>, <<"/", "a", "/", "b">>, <<"/", "a", "/", "b", "/", "a", "a">>,
                <<"/", "a", "/", "a", "b", "/", "b">>, <<"/", "a", "/", "b", "/">> }
+\* deeper histories on three patterns under one node (warm-up, then retain / remove below a node that survives)
+PDeep == { <<"/", "a", "/", "b">>, <<"/", "a", "/", "LOW">>, <<"/", "a", "AS">> }
+ProbesDeep == { <<>>, <<"/", "a", "/", "b">>, <<"/", "a", "/", "a">>, <<"/", "a", "a">>, <<"/", "a">>, <<"/", "a", "/", "a", "b">> }
 RECURSIVE Strs(_,_)
 Strs(n, A) == IF n = 0 THEN {<<>>} ELSE LET S == Strs(n - 1, A) IN S \cup {Append(s, c) : s \in {x \in S : Len(x) = n - 1}, c \in A}
 H4 == Strs(4, {"a", "b", "/", "."})
